@@ -34,10 +34,11 @@ Clause → theorems → what remains outside (same table as harness/registry.d/C
 * jacobian is strictly positive on the domain
     theorems: Identity.jac_pos, Logit.jac_pos, Log.jac_pos, Log.bf_pos, Log.jac_neg_of_base_lt_one, BoxCox2.jac_pos,
               BoxCox2sym.jac_pos, YeoJohnson.jac_pos, LogSinh.jac_pos, Reciprocal.jac_pos, Sinh.jac_pos,
-              Manly.jac_pos, Softmax.jacRow_pos, Softmax.partial_pos, X.jacobian_spec
+              Manly.jac_pos, Softmax.jacRow_pos, Softmax.partial_pos, X.jacobian_spec, Sinh.jacH_eq_jac,
+              Sinh.jacobianH_spec
     outside:  Log needs log(base) > 0: for 0 < base < 1 the Jacobian is proved negative (known finding
-              Log/positive/base_below_one). In doubles Sinh's Jacobian underflows to 0 for |u| > 1.34e154 (known
-              finding Sinh/positive/u_squared_overflow) - not expressible over the reals
+              Log/positive/base_below_one). Sinh's u*u overflow in doubles (Jacobian 0 for |u| > 1.34e154) is
+              repaired on fix-C02 (hypot): Sinh.jacH_eq_jac, Sinh.jacobianH_spec
 
 * NaN outside the domain via np.where (anchor): the domain of jacobian is its guard
     theorems: Logit.jacobian_none, Log.jacobian_none, BoxCox2.jacobian_none, BoxCox1lam.jacobian_none,
@@ -348,6 +349,25 @@ theorem Sinh.strictMono (p : Sinh.Params ℝ) (hp : Sinh.admissible p) : StrictM
   rw [← strictMonoOn_univ]
   exact strictMonoOn_of_hasDerivAt_pos (f' := Sinh.jac p) convex_univ
     (fun x _ => Sinh.hasDerivAt p x) (fun x _ => Sinh.jac_pos p x hp)
+
+/-- the repaired code (`scale / np.hypot(1., u)`, model `Sinh.jacH`: no `u*u`, hence no overflow to a zero Jacobian in
+doubles) is the same real function as `Sinh.jac`: every Sinh theorem above holds for it verbatim -/
+theorem Sinh.jacH_eq_jac (p : Sinh.Params ℝ) (x : ℝ) : C02.Sinh.jacH p x = Sinh.jac p x := by
+  simp only [C02.Sinh.jacH, C02.Sinh.hypot1, Sinh.jac, transc_sqrt, absv_eq]
+  generalize (x - p.nu) * p.scale = u
+  congr 1
+  split_ifs with h
+  · have hpos : 0 < |u| := by linarith
+    have e : 1 + u * u = |u| * |u| * (1 + 1 / |u| * (1 / |u|)) := by
+      have : |u| * |u| = u * u := abs_mul_abs_self u
+      field_simp
+      linarith
+    rw [e, Real.sqrt_mul (mul_self_nonneg _), Real.sqrt_mul_self hpos.le]
+  · rfl
+
+theorem Sinh.jacobianH_spec (p : Sinh.Params ℝ) (x : ℝ) (hp : Sinh.admissible p) :
+    ∃ j, C02.Sinh.jacobianH p x = some j ∧ 0 < j ∧ HasDerivAt (fun t => Sinh.fwd p t) j x :=
+  ⟨_, rfl, by rw [Sinh.jacH_eq_jac]; exact Sinh.jac_pos p x hp, by rw [Sinh.jacH_eq_jac]; exact Sinh.hasDerivAt p x⟩
 
 /-! ### Manly (repaired branch test) — `(exp(lam x/xmax) - 1)/lam` with Jacobian `exp(lam x/xmax)/xmax`
 (`abs(lam) > EPS`), `x/xmax` with Jacobian `1/xmax` (otherwise, incl. `lam = 0`) -/
